@@ -23,6 +23,7 @@ import (
 	"encoding/json"
 	"fmt"
 	"io"
+	"math/rand"
 	"net"
 	"sort"
 	"strconv"
@@ -124,7 +125,10 @@ func (s *c18Store) Remove(ctx context.Context, rn *command.RemoveNodeRequest) er
 	return s.nl()
 }
 func (s *c18Store) Stepdown(wait bool, id string) error { s.rec.add("store.Stepdown"); return s.nl() }
-func (s *c18Store) LeaderAddr() (string, error)       { s.rec.add("store.LeaderAddr"); return "127.0.0.1:4002", nil }
+func (s *c18Store) LeaderAddr() (string, error) {
+	s.rec.add("store.LeaderAddr")
+	return "127.0.0.1:4002", nil
+}
 func (s *c18Store) Leader() (*store.Server, error) {
 	s.rec.add("store.Leader")
 	return &store.Server{ID: "n1", Addr: "127.0.0.1:4002", Suffrage: command.Suffrage_VOTER}, nil
@@ -145,8 +149,8 @@ func (s *c18Store) Stats() (map[string]any, error) {
 	s.rec.add("store.Stats")
 	return map[string]any{"secret": c18Sentinel}, nil
 }
-func (s *c18Store) Snapshot(n uint64) error    { s.rec.add("store.Snapshot"); return nil }
-func (s *c18Store) Reap() (int, int, error)    { s.rec.add("store.Reap"); return 1, 1, nil }
+func (s *c18Store) Snapshot(n uint64) error { s.rec.add("store.Snapshot"); return nil }
+func (s *c18Store) Reap() (int, int, error) { s.rec.add("store.Reap"); return 1, 1, nil }
 func (s *c18Store) ReadFrom(r io.Reader) (int64, error) {
 	s.rec.add("store.ReadFrom")
 	n, _ := io.Copy(io.Discard, r)
@@ -359,12 +363,12 @@ func c18Presentations(m c18Model) []c18Pres {
 // ----------------------------------------------------------------- routes ----
 
 type c18Route struct {
-	Name     string
-	Target   string   // request target
-	Perms    []string // all required (conjunction); nil = no documented permission
-	Methods  []string // methods the endpoint serves
-	CT       string
-	Body     string
+	Name    string
+	Target  string   // request target
+	Perms   []string // all required (conjunction); nil = no documented permission
+	Methods []string // methods the endpoint serves
+	CT      string
+	Body    string
 }
 
 const c18SQLiteBody = "SQLite format 3\x00" + "0123456789abcdef0123456789abcdef"
@@ -423,7 +427,7 @@ func c18Has(l []string, s string) bool {
 // ------------------------------------------------------------ raw client ----
 
 func c18RawHTTP(addr, method string, rt c18Route, authz string) (status int, all []byte, err error) {
-	conn, err := net.DialTimeout("tcp", addr, 10*time.Second)
+	conn, err := c18Dial(addr)
 	if err != nil {
 		return 0, nil, err
 	}
@@ -505,8 +509,9 @@ func TestVerif_C18_HTTP(t *testing.T) {
 		svc.logger.SetOutput(io.Discard)
 		svc.DefaultQueueBatchSz = 1
 		svc.DefaultQueueTimeout = 5 * time.Millisecond
-		if err := svc.Start(); err != nil {
-			rt.Skipf("infrastructure: %v", err)
+		if err := c18Retry(svc.Start); err != nil {
+			rec.Label("inconclusive:infrastructure")
+			return
 		}
 		defer svc.Close()
 		addr := svc.Addr().String()
@@ -614,4 +619,53 @@ func TestVerif_C18_HTTP(t *testing.T) {
 			}
 		}
 	})
+}
+
+// ---- infrastructure helpers (not part of any oracle) ----
+
+// c18Dial connects to addr from a random loopback source address 127.x.y.z.
+// Sockets of a client that closes (or half-closes) first stay in TIME_WAIT for
+// 60 s; with 127.0.0.1 as the only source address, thousands of short
+// connections per second from many check processes would leave no free port
+// for bind(127.0.0.1:0), i.e. for every new listener on the machine. Spreading
+// the client side over 127/8 keeps those sockets away from 127.0.0.1. A few
+// retries with back-off absorb transient failures.
+func c18Dial(addr string) (net.Conn, error) {
+	var last error
+	for try := 0; try < 5; try++ {
+		d := net.Dialer{Timeout: 10 * time.Second, LocalAddr: &net.TCPAddr{IP: net.IPv4(127, byte(1+rand.Intn(250)), byte(rand.Intn(256)), byte(1+rand.Intn(250)))}}
+		c, err := d.Dial("tcp", addr)
+		if err == nil {
+			return c, nil
+		}
+		last = err
+		time.Sleep(time.Duration(25*(try+1)) * time.Millisecond)
+	}
+	return nil, last
+}
+
+// c18Listen listens on 127.0.0.1:0, retrying a few times.
+func c18Listen() (net.Listener, error) {
+	var last error
+	for try := 0; try < 5; try++ {
+		ln, err := net.Listen("tcp", "127.0.0.1:0")
+		if err == nil {
+			return ln, nil
+		}
+		last = err
+		time.Sleep(time.Duration(50*(try+1)) * time.Millisecond)
+	}
+	return nil, last
+}
+
+// c18Retry runs f up to five times with a short back-off.
+func c18Retry(f func() error) error {
+	var last error
+	for try := 0; try < 5; try++ {
+		if last = f(); last == nil {
+			return nil
+		}
+		time.Sleep(time.Duration(50*(try+1)) * time.Millisecond)
+	}
+	return last
 }
